@@ -197,7 +197,7 @@ Qed.
 (* a segment against a parser in the middle of m: either m stays incomplete, or it completes and
    the rest of the segment [l] is left in the buffer *)
 Lemma pending_split p m r seg rest X : no_upgrade m -> Pending p m r -> seg ++ rest = r ++ X ->
-  (exists p' r', parse p seg = Ok p' /\ Pending p' m r' /\ rest = r' ++ X) \/
+  (exists p' r', parse p seg = Ok p' /\ Pending p' m r' /\ rest = r' ++ X /\ r = seg ++ r') \/
   (exists l, parse p seg = Ok (expected m l) /\ X = l ++ rest).
 Proof.
   intros NU Pd E. apply app_eq_app in E. destruct E as (l & [(E1 & E2)|(E1 & E2)]).
@@ -206,7 +206,7 @@ Proof.
     + right. exists []. rewrite app_nil_r in E1. subst r. destruct Pd as (_ & _ & _ & _ & W).
       pose proof (W []) as W0. rewrite app_nil_r in W0. split; [exact W0|]. cbn. symmetry. exact E2.
     + left. subst r. destruct (Pending_short p m seg (y :: l') NU Pd) as (p' & Ea & Pd'); [discriminate|].
-      exists p', (y :: l'). split; [exact Ea|]. split; [exact Pd'|exact E2].
+      exists p', (y :: l'). split; [exact Ea|]. split; [exact Pd'|]. split; [exact E2|reflexivity].
 Qed.
 
 (* ======================================================================================
@@ -503,6 +503,11 @@ Section Forward.
       rewrite L, fold_fwd_act. reflexivity.
   Qed.
 
+  Ltac hn := cbv beta iota delta [set_request set_plugin set_upstream set_pipeline set_route set_client_q set_conns
+                  set_draws set_status client_queue client_queue_all up_queue up_add upd_nth
+                  request plugin upstream pipeline_request route client_q conns draws stat
+                  up_host up_port up_queued up_nsent up_closed];
+             cbn [app length].
   Ltac hs := cbn [request plugin upstream pipeline_request route client_q conns draws stat
                   set_request set_plugin set_upstream set_pipeline set_route set_client_q set_conns set_draws
                   set_status client_queue client_queue_all up_queue up_add upd_nth pstate length app
@@ -533,9 +538,9 @@ Section Forward.
   Hypothesis first_proto : http_handler_protocol (rq0 m1) = HTTP_PROXY.
 
   (* before the first request is complete *)
-  Definition PhaseA (s : hstate) (rest : bytes) : Prop :=
+  Definition PhaseA (s : hstate) (rest : bytes) (need : nat) : Prop :=
     exists p r ds, s = mkH p PNone None None None [] [] ds Alive /\ Pending p m1 r /\
-                   rest = r ++ concat (map render ms).
+                   rest = r ++ concat (map render ms) /\ need = length r.
 
   (* afterwards: [done] have been forwarded, [todo] are still to come *)
   Definition PhaseB (s : hstate) (rest : bytes) (relayed : list bytes) : Prop :=
@@ -580,34 +585,35 @@ Section Forward.
     exists rqX, po, (length (map (fwd c) done)), ds, done, todo. repeat split; assumption.
   Qed.
 
-  Lemma phaseA_flush s rest : PhaseA s rest -> step c s EFlush = s.
+  Lemma phaseA_flush s rest need : PhaseA s rest need -> step c s EFlush = s.
   Proof. intros (p & r & ds & -> & _). reflexivity. Qed.
 
   Lemma first_fwd : exists x, fwd_bytes c m1 = Ok x.
   Proof. pose proof class_all as F. inversion F as [|? ? (_ & _ & _ & _ & _ & H) _]. exact H. Qed.
 
-  Lemma phaseA_client s seg rest : PhaseA s (seg ++ rest) -> seg <> [] ->
-    PhaseA (step c s (EClient seg)) rest \/ PhaseB (step c s (EClient seg)) rest [].
+  Lemma phaseA_client s seg rest need : PhaseA s (seg ++ rest) need -> seg <> [] ->
+    PhaseA (step c s (EClient seg)) rest (need - length seg) \/ PhaseB (step c s (EClient seg)) rest [].
   Proof.
-    intros (p & r & ds & -> & Pd & St) Hs.
+    intros (p & r & ds & -> & Pd & St & Hn) Hs.
     pose proof class_all as F. inversion F as [|? ? (Hm & Hq & Hu & Htn & Ho & (x & Hx)) Ft]; subst.
     unfold step. cbn [stat]. destruct seg as [|s0 st] eqn:Eseg; [contradiction|]. rewrite <- Eseg in *. clear Eseg.
     unfold handle_data, handle_data_try. cbn [request].
     assert (NCp : is_complete p = false) by (apply not_complete_false; destruct Pd as (_ & _ & H & _); exact H).
     rewrite NCp. cbn [negb]. unfold parse_first_request. cbn [request].
-    destruct (pending_split p m1 r seg rest _ Hu Pd St) as [(p' & r' & Ea & Pd' & Er)|(l & Ea & Er)].
+    destruct (pending_split p m1 r seg rest _ Hu Pd St) as [(p' & r' & Ea & Pd' & Er & Err)|(l & Ea & Er)].
     - (* the first request is still incomplete *)
       rewrite Ea. pose proof Pd' as (_ & _ & NC' & _). rewrite (not_complete_false p' NC'). cbn [negb].
-      hs. left. exists p', r', ds. split; [reflexivity|]. split; [exact Pd'|exact Er].
+      hn. left. exists p', r', ds. split; [reflexivity|]. split; [exact Pd'|]. split; [exact Er|].
+      rewrite Err, app_length. lia.
     - (* it completes inside this segment; l follows it *)
       right. rewrite Ea, is_complete_expected. cbn [negb].
       change (http_handler_protocol (expected m1 l)) with (http_handler_protocol (rq0 m1)).
       rewrite first_proto, has_proxy_c.
       unfold proxy_on_request_complete.
       rewrite (connect_upstream_origin _ h pt) by exact Ho.
-      hs.
+      hn.
       change (is_https_tunnel (expected m1 l)) with (is_https_tunnel (rq0 m1)). rewrite Htn.
-      rewrite expected_sbs, rebuild_sbs. fold (fwd_bytes c m1). rewrite Hx. hs.
+      rewrite expected_sbs, rebuild_sbs. fold (fwd_bytes c m1). rewrite Hx. hn.
       set (rqF0 := fst (rebuild_for_upstream c false (rq0 m1))).
       assert (CF : is_complete rqF0 = true)
         by (unfold is_complete, rqF0; rewrite rebuild_state; apply (is_complete_expected m1 [])).
@@ -619,9 +625,9 @@ Section Forward.
         split; [cbn [map]; rewrite Fx; reflexivity|]. split; [exact CF|]. split; [exact TF|].
         split; [reflexivity|]. split; [discriminate|]. cbn [Carry]. symmetry. exact Er.
       + change (is_complete (set_buffer_size rqF0 (Some (y :: l')) (len (render m1 ++ y :: l')))) with (is_complete rqF0).
-        rewrite CF. unfold plugin_on_client_data. hs.
-        set (rqC := clear_buffer (set_buffer_size rqF0 (Some (y :: l')) (len (render m1 ++ y :: l')))).
-        change (mkH rqC PProxy (Some O) None None [] [mkUp h pt [x] O false] ds Alive) with (pstate rqC None [] [x] O ds).
+        rewrite CF. unfold plugin_on_client_data. hn.
+        pose (rqC := clear_buffer (set_buffer_size rqF0 (Some (y :: l')) (len (render m1 ++ y :: l')))).
+        match goal with |- context [loop_fuel ?a _] => change a with (pstate rqC None [] [x] O ds) end.
         destruct (fwd_segment rqC None [] [x] O ds ms (y :: l') rest CF TF Ft) as (done' & ms' & po' & E' & L & C');
           [cbn [Carry]; symmetry; exact Er|discriminate|].
         rewrite L.
@@ -629,4 +635,295 @@ Section Forward.
         split; [cbn [map app]; rewrite Fx; reflexivity|]. split; [exact CF|]. split; [exact TF|].
         split; [cbn [app]; rewrite <- E'; reflexivity|]. split; [discriminate|exact C'].
   Qed.
+
+  (* schedules of the theorem: non-empty client segments, non-empty data from connection 0 — but
+     not before the client has sent [need] more bytes (an origin cannot speak on a connection that
+     has not been opened) —, flushes; nobody closes *)
+  Fixpoint sched_ok (need : nat) (evs : list event) : Prop :=
+    match evs with
+    | [] => True
+    | EClient seg :: t => seg <> [] /\ sched_ok (need - length seg) t
+    | EUp k raw :: t => need = O /\ k = O /\ raw <> [] /\ sched_ok need t
+    | EFlush :: t => sched_ok need t
+    | _ :: _ => False
+    end.
+
+  (* what connection 0 emits, piece by piece *)
+  Fixpoint ups (evs : list event) : list bytes :=
+    match evs with
+    | [] => []
+    | EUp O raw :: t => raw :: ups t
+    | _ :: t => ups t
+    end.
+
+  Definition FInv (s : hstate) (rest : bytes) (relayed : list bytes) (need : nat) : Prop :=
+    (PhaseA s rest need /\ relayed = []) \/ PhaseB s rest relayed.
+
+  Lemma forward_run : forall evs s rest relayed need,
+    FInv s rest relayed need -> sched_ok need evs -> client_bytes evs = rest ->
+    exists need', FInv (run c s evs) [] (relayed ++ ups evs) need'.
+  Proof.
+    induction evs as [|ev t IH]; intros s rest relayed need I S E.
+    - cbn in E. subst rest. cbn [run fold_left ups]. rewrite app_nil_r. exists need. exact I.
+    - unfold run. cbn [fold_left]. fold (run c (step c s ev) t).
+      destruct ev as [seg| |k raw|k|]; cbn [sched_ok] in S; try contradiction.
+      + destruct S as (Hs & S). cbn [client_bytes] in E. subst rest. cbn [ups].
+        destruct I as [(A & ->)|B].
+        * destruct (phaseA_client s seg (client_bytes t) need A Hs) as [A'|B'].
+          -- apply (IH _ (client_bytes t) [] (need - length seg)%nat); [left; auto|exact S|reflexivity].
+          -- apply (IH _ (client_bytes t) [] (need - length seg)%nat); [right; exact B'|exact S|reflexivity].
+        * apply (IH _ (client_bytes t) relayed (need - length seg)%nat); [right; apply phaseB_client; assumption|exact S|reflexivity].
+      + destruct S as (Hn & -> & Hr & S). cbn [client_bytes] in E. cbn [ups].
+        destruct I as [(A & ->)|B].
+        * exfalso. destruct A as (p & r & ds & _ & (Hne & _) & _ & Hl). subst need.
+          destruct r; [contradiction|discriminate].
+        * replace (relayed ++ raw :: ups t) with ((relayed ++ [raw]) ++ ups t) by (rewrite <- app_assoc; reflexivity).
+          apply (IH _ rest (relayed ++ [raw]) need); [right; apply phaseB_up; assumption|exact S|exact E].
+      + cbn [client_bytes] in E. cbn [ups].
+        destruct I as [(A & ->)|B].
+        * rewrite (phaseA_flush s rest need A). apply (IH _ rest [] need); [left; auto|exact S|exact E].
+        * apply (IH _ rest relayed need); [right; apply phaseB_flush; exact B|exact S|exact E].
+  Qed.
+
+  (* THE FORWARD PROXY, every packing, every interleaving: each request is forwarded exactly once,
+     in order, on the one connection to the origin all of them name; everything that connection
+     emits reaches the client in order; the connection stays open with no request pending *)
+  Theorem forward_partial ds evs :
+    sched_ok (length (render m1)) evs -> client_bytes evs = concat (map render (m1 :: ms)) ->
+    let s := run c (init ds) evs in
+    stat s = Alive /\ pipeline_request s = None /\ pending_request s = false /\ connect_log s = [(h, pt)] /\
+    (exists n, conns s = [mkUp h pt (map (fwd c) (m1 :: ms)) n false]) /\
+    client_q s = ups evs.
+  Proof.
+    intros S E. cbv zeta.
+    assert (I0 : FInv (init ds) (concat (map render (m1 :: ms))) [] (length (render m1))).
+    { left. split; [|reflexivity]. exists (new_parser REQUEST_PARSER), (render m1), ds.
+      split; [reflexivity|]. split; [|split; reflexivity].
+      pose proof class_all as F. inversion F as [|? ? (Hm & Hq & _) _]. apply Pending_new; assumption. }
+    destruct (forward_run evs _ _ _ _ I0 S E) as (need' & [(A & _)|B]).
+    - exfalso. destruct A as (p & r & ds' & _ & (Hne & _) & Er & _). symmetry in Er. apply app_eq_nil in Er. tauto.
+    - destruct B as (rqX & po & n & ds' & done & todo & -> & Hc & Ht & Ed & Hd & C).
+      apply Carry_end in C. destruct C as (-> & ->). rewrite app_nil_r in Ed. subst done.
+      cbn [app]. unfold pstate, connect_log, pending_request. cbn [stat pipeline_request plugin conns map up_host up_port client_q].
+      repeat split. exists n. reflexivity.
+  Qed.
 End Forward.
+
+(* ======================================================================================
+   3c. the web server (a local route plugin)
+   ====================================================================================== *)
+Section Web.
+  Variable c : cfg.
+  Variable j : nat.
+  Variable respond : parser -> list bytes.
+  Hypothesis has_web_c : has_web c = true.
+  Hypothesis plugin_j : nth_error (web_plugins c) j = Some (WLocal respond).
+  (* the plugin's answer does not depend on the bytes that FOLLOW the request in its segment *)
+  Hypothesis respond_stable : forall p b s, respond (set_buffer_size p b s) = respond p.
+
+  Ltac hn := cbv beta iota delta [set_request set_plugin set_upstream set_pipeline set_route set_client_q set_conns
+                  set_draws set_status client_queue client_queue_all up_queue up_add upd_nth
+                  request plugin upstream pipeline_request route client_q conns draws stat
+                  up_host up_port up_queued up_nsent up_closed];
+             cbn [app length].
+
+  (* the route a request names: what _try_route finds for its path *)
+  Definition route_of (p : parser) : result (option nat) :=
+    try_route c (if truthy (path p) then or_empty (path p) else [SLASH]).
+
+  Definition web_class (m : message) : Prop :=
+    message_ok AL m /\ is_req m /\ no_upgrade m /\
+    is_http_1_1_keep_alive (rq0 m) = true /\ route_of (rq0 m) = Ok (Some j).
+
+  Definition resp (m : message) : list bytes := respond (rq0 m).
+  Definition web_okm (m : message) : Prop := is_http_1_1_keep_alive (rq0 m) = true.
+
+  Definition wstate (rqX : parser) (po : option parser) (q : list bytes) (ds : list nat) : hstate :=
+    mkH rqX PWeb None po (Some j) q [] ds Alive.
+
+  Definition G_web (s : hstate) : Prop :=
+    exists rqX po q ds, s = wstate rqX po q ds /\ is_complete rqX = true /\ is_http_1_1_keep_alive rqX = true.
+
+  Definition web_act (s : hstate) (m : message) : hstate := client_queue_all (resp m) s.
+
+  Lemma web_oc_spec s m tail : G_web s -> web_okm m ->
+    web_dispatch c j s (expected m tail) = (web_act s m, Ok None).
+  Proof.
+    intros _ K. unfold web_dispatch, web_handle_request. rewrite plugin_j.
+    change (is_http_1_1_keep_alive (expected m tail)) with (is_http_1_1_keep_alive (rq0 m)). rewrite K.
+    unfold web_act, resp. rewrite expected_sbs, respond_stable. reflexivity.
+  Qed.
+
+  Lemma web_G_act s m : G_web s -> web_okm m -> G_web (web_act s m).
+  Proof.
+    intros (rqX & po & q & ds & -> & Hc & Hk) _. exists rqX, po, (q ++ resp m), ds.
+    split; [reflexivity|split; assumption].
+  Qed.
+
+  Lemma web_G_pipe s po : G_web s -> G_web (set_pipeline po s).
+  Proof.
+    intros (rqX & po0 & q & ds & -> & Hc & Hk). exists rqX, po, q, ds. split; [reflexivity|split; assumption].
+  Qed.
+
+  Lemma fold_web_act done : forall rqX po q ds,
+    fold_left web_act done (wstate rqX po q ds) = wstate rqX po (q ++ concat (map resp done)) ds.
+  Proof.
+    induction done as [|m t IH]; intros; cbn [fold_left map concat].
+    - rewrite app_nil_r. reflexivity.
+    - change (web_act (wstate rqX po q ds) m) with (wstate rqX po (q ++ resp m) ds).
+      rewrite IH, <- app_assoc. reflexivity.
+  Qed.
+
+  Lemma web_class_msg_ok m : web_class m -> msg_ok web_okm m.
+  Proof. intros (A & B & C & D & _). exact (conj A (conj B (conj C D))). Qed.
+
+  Lemma web_segment rqX po q ds todo seg after :
+    is_complete rqX = true -> is_http_1_1_keep_alive rqX = true ->
+    Forall web_class todo -> Carry po todo (seg ++ after) -> seg <> [] ->
+    exists done ms' po', todo = done ++ ms' /\
+      web_on_client_data c (wstate rqX po q ds) seg = (wstate rqX po' (q ++ concat (map resp done)) ds, Ok tt) /\
+      Carry po' ms' after.
+  Proof.
+    intros Hc Hk F C Hs.
+    assert (Gs : G_web (wstate rqX po q ds)) by (exists rqX, po, q, ds; auto).
+    destruct (loop_segment (pipeline_round (web_dispatch c j)) (web_dispatch c j) web_okm web_act G_web
+                (fun s raw _ _ => eq_refl) web_oc_spec web_G_act web_G_pipe (fun s po m => eq_refl)
+                todo (loop_fuel (wstate rqX po q ds) seg) (wstate rqX po q ds) seg after)
+      as (done & ms' & po' & E & L & C').
+    - eapply Forall_impl; [|exact F]. apply web_class_msg_ok.
+    - exact Gs.
+    - exact C.
+    - exact Hs.
+    - unfold loop_fuel. lia.
+    - exists done, ms', po'. split; [exact E|]. split; [|exact C'].
+      unfold web_on_client_data. cbn [route wstate request]. rewrite Hc, Hk. cbn [andb].
+      change (mkH rqX PWeb None po (Some j) q [] ds Alive) with (wstate rqX po q ds).
+      rewrite L, fold_web_act. reflexivity.
+  Qed.
+
+  Variable m1 : message.
+  Variable ms : list message.
+  Hypothesis class_all : Forall web_class (m1 :: ms).
+  Hypothesis first_proto : http_handler_protocol (rq0 m1) = WEB_SERVER.
+
+  Definition WPhaseA (s : hstate) (rest : bytes) : Prop :=
+    exists p r ds, s = mkH p PNone None None None [] [] ds Alive /\ Pending p m1 r /\
+                   rest = r ++ concat (map render ms).
+
+  Definition WPhaseB (s : hstate) (rest : bytes) : Prop :=
+    exists rqX po ds done todo,
+      s = wstate rqX po (concat (map resp done)) ds /\
+      is_complete rqX = true /\ is_http_1_1_keep_alive rqX = true /\
+      done ++ todo = m1 :: ms /\ done <> [] /\ Carry po todo rest.
+
+  Lemma wclass_todo done todo : done ++ todo = m1 :: ms -> Forall web_class todo.
+  Proof. intros E. pose proof class_all as F. rewrite <- E in F. apply Forall_app in F. tauto. Qed.
+
+  Lemma wphaseB_client s seg rest : WPhaseB s (seg ++ rest) -> seg <> [] -> WPhaseB (step c s (EClient seg)) rest.
+  Proof.
+    intros (rqX & po & ds & done & todo & -> & Hc & Hk & E & Hd & C) Hs.
+    destruct (web_segment rqX po (concat (map resp done)) ds todo seg rest Hc Hk (wclass_todo _ _ E) C Hs)
+      as (done' & ms' & po' & E' & L & C').
+    unfold step. cbn [stat wstate]. destruct seg as [|x t]; [contradiction|].
+    unfold handle_data, handle_data_try. cbn [request wstate]. rewrite Hc. cbn [negb].
+    unfold plugin_on_client_data. cbn [plugin wstate].
+    change (mkH rqX PWeb None po (Some j) (concat (map resp done)) [] ds Alive)
+      with (wstate rqX po (concat (map resp done)) ds).
+    rewrite L.
+    exists rqX, po', ds, (done ++ done'), ms'. split; [rewrite map_app, concat_app; reflexivity|].
+    split; [exact Hc|]. split; [exact Hk|]. split; [rewrite <- app_assoc, <- E'; exact E|].
+    split; [destruct done; [contradiction|discriminate]|exact C'].
+  Qed.
+
+  (* nothing else moves the web server: there is no upstream *)
+  Lemma wphase_other s ev : (exists rest, WPhaseA s rest \/ WPhaseB s rest) ->
+    match ev with EClient _ | EClientEof => False | _ => True end -> step c s ev = s.
+  Proof.
+    intros (rest & [(p & r & ds & -> & _)|(rqX & po & ds & done & todo & -> & _)]) H;
+      destruct ev; try contradiction; reflexivity.
+  Qed.
+
+  Lemma wphaseA_client s seg rest : WPhaseA s (seg ++ rest) -> seg <> [] ->
+    WPhaseA (step c s (EClient seg)) rest \/ WPhaseB (step c s (EClient seg)) rest.
+  Proof.
+    intros (p & r & ds & -> & Pd & St) Hs.
+    pose proof class_all as F. inversion F as [|? ? (Hm & Hq & Hu & Hk & Hro) Ft]; subst.
+    unfold step. cbn [stat]. destruct seg as [|s0 st] eqn:Eseg; [contradiction|]. rewrite <- Eseg in *. clear Eseg.
+    unfold handle_data, handle_data_try. cbn [request].
+    assert (NCp : is_complete p = false) by (apply not_complete_false; destruct Pd as (_ & _ & H & _); exact H).
+    rewrite NCp. cbn [negb]. unfold parse_first_request. cbn [request].
+    destruct (pending_split p m1 r seg rest _ Hu Pd St) as [(p' & r' & Ea & Pd' & Er & Err)|(l & Ea & Er)].
+    - rewrite Ea. pose proof Pd' as (_ & _ & NC' & _). rewrite (not_complete_false p' NC'). cbn [negb].
+      hn. left. exists p', r', ds. split; [reflexivity|]. split; [exact Pd'|exact Er].
+    - right. rewrite Ea, is_complete_expected. cbn [negb].
+      change (http_handler_protocol (expected m1 l)) with (http_handler_protocol (rq0 m1)).
+      rewrite first_proto, has_web_c.
+      unfold web_on_request_complete. hn.
+      assert (WS : is_websocket_upgrade (expected m1 l) = false).
+      { unfold is_websocket_upgrade. rewrite (upgrade_false _ (expected_no_upgrade m1 l Hu)). reflexivity. }
+      rewrite WS.
+      change (path (expected m1 l)) with (path (rq0 m1)). fold (route_of (rq0 m1)). rewrite Hro.
+      unfold web_handle_request. rewrite plugin_j. hn.
+      assert (CF : is_complete (expected m1 l) = true) by apply is_complete_expected.
+      assert (KF : is_http_1_1_keep_alive (expected m1 l) = true) by exact Hk.
+      assert (RF : respond (expected m1 l) = resp m1) by (unfold resp; rewrite expected_sbs, respond_stable; reflexivity).
+      rewrite RF, expected_buffer.
+      destruct l as [|y l']; cbn [optb].
+      + exists (expected m1 []), None, ds, [m1], ms.
+        split; [cbn [map concat]; rewrite app_nil_r; reflexivity|]. split; [exact CF|]. split; [exact KF|].
+        split; [reflexivity|]. split; [discriminate|]. cbn [Carry]. symmetry. exact Er.
+      + rewrite CF. unfold plugin_on_client_data. hn.
+        pose (rqC := clear_buffer (expected m1 (y :: l'))).
+        match goal with |- context [web_on_client_data c ?a _] => change a with (wstate rqC None (resp m1) ds) end.
+        destruct (web_segment rqC None (resp m1) ds ms (y :: l') rest CF KF Ft) as (done' & ms' & po' & E' & L & C');
+          [cbn [Carry]; symmetry; exact Er|discriminate|].
+        rewrite L.
+        exists rqC, po', ds, (m1 :: done'), ms'.
+        split; [reflexivity|]. split; [exact CF|]. split; [exact KF|].
+        split; [cbn [app]; rewrite <- E'; reflexivity|]. split; [discriminate|exact C'].
+  Qed.
+
+  (* schedules: non-empty client segments; anything else except a close by the client *)
+  Fixpoint wsched_ok (evs : list event) : Prop :=
+    match evs with
+    | [] => True
+    | EClient seg :: t => seg <> [] /\ wsched_ok t
+    | EClientEof :: _ => False
+    | _ :: t => wsched_ok t
+    end.
+
+  Lemma web_run : forall evs s rest,
+    WPhaseA s rest \/ WPhaseB s rest -> wsched_ok evs -> client_bytes evs = rest ->
+    WPhaseA (run c s evs) [] \/ WPhaseB (run c s evs) [].
+  Proof.
+    induction evs as [|ev t IH]; intros s rest I S E.
+    - cbn in E. subst rest. exact I.
+    - unfold run. cbn [fold_left]. fold (run c (step c s ev) t).
+      destruct ev as [seg| |k raw|k|]; cbn [wsched_ok] in S; try contradiction.
+      + destruct S as (Hs & S). cbn [client_bytes] in E. subst rest.
+        apply (IH _ (client_bytes t)); [|exact S|reflexivity].
+        destruct I as [A|B]; [apply wphaseA_client; assumption|right; apply wphaseB_client; assumption].
+      + rewrite (wphase_other s (EUp k raw)); [|exists rest; exact I|exact Logic.I]. apply (IH _ rest I S E).
+      + rewrite (wphase_other s (EUpEof k)); [|exists rest; exact I|exact Logic.I]. apply (IH _ rest I S E).
+      + rewrite (wphase_other s EFlush); [|exists rest; exact I|exact Logic.I]. apply (IH _ rest I S E).
+  Qed.
+
+  (* THE WEB SERVER, every packing: each request is answered exactly once, in order, by the plugin
+     whose route all of them name; the connection stays open with no request pending *)
+  Theorem web_partial ds evs :
+    wsched_ok evs -> client_bytes evs = concat (map render (m1 :: ms)) ->
+    let s := run c (init ds) evs in
+    stat s = Alive /\ pipeline_request s = None /\ pending_request s = false /\ conns s = [] /\
+    client_q s = concat (map resp (m1 :: ms)).
+  Proof.
+    intros S E. cbv zeta.
+    assert (I0 : WPhaseA (init ds) (concat (map render (m1 :: ms))) \/ WPhaseB (init ds) (concat (map render (m1 :: ms)))).
+    { left. exists (new_parser REQUEST_PARSER), (render m1), ds. split; [reflexivity|]. split; [|reflexivity].
+      pose proof class_all as F. inversion F as [|? ? (Hm & Hq & _) _]. apply Pending_new; assumption. }
+    destruct (web_run evs _ _ I0 S E) as [A|B].
+    - exfalso. destruct A as (p & r & ds' & _ & (Hne & _) & Er). symmetry in Er. apply app_eq_nil in Er. tauto.
+    - destruct B as (rqX & po & ds' & done & todo & -> & Hc & Hk & Ed & Hd & C).
+      apply Carry_end in C. destruct C as (-> & ->). rewrite app_nil_r in Ed. subst done.
+      unfold wstate, pending_request. cbn [stat pipeline_request plugin conns client_q]. repeat split.
+  Qed.
+End Web.
